@@ -1,1 +1,79 @@
 // Kani contract harnesses for /repo/arrow-data/src/data.rs (child module: sees private items via super::)
+//
+// Only the slice / NullBuffer level helpers are specified here. ArrayData::try_new / validate /
+// equal are measured out of reach for Kani (> 7 min, 7 GB at len <= 3: DESIGN.md section 3).
+// Stubs: alloc::fmt::format -> stub_format (error messages are not part of any contract).
+use super::*;
+#[path = "/verif/kani/support/spec.rs"]
+mod spec;
+use spec::*;
+
+// Contract (C09): `checked_len_plus_offset(type, len, offset)` = Ok(len + offset) exactly when the
+// mathematical sum fits in usize, Err otherwise — for all 2^128 argument pairs (the overflow guard
+// every ArrayData length computation goes through). The DataType only feeds the error message.
+// @unit name=checked_len_plus_offset_iff_no_overflow props=C09 kind=complete fns=checked_len_plus_offset tier=quick mem=2 timeout=120
+#[kani::proof]
+#[kani::unwind(4)]
+#[kani::stub(alloc::fmt::format, stub_format)]
+fn checked_len_plus_offset_iff_no_overflow() {
+    let (len, offset): (usize, usize) = (kani::any(), kani::any());
+    let dt = DataType::Int32;
+    let r = checked_len_plus_offset(&dt, len, offset);
+    let sum = len as u128 + offset as u128;
+    match &r {
+        Ok(s) => assert!(sum <= usize::MAX as u128 && *s as u128 == sum),
+        Err(_) => assert!(sum > usize::MAX as u128),
+    }
+    kani::cover!(r.is_ok() && sum == usize::MAX as u128);
+    kani::cover!(r.is_err() && sum == usize::MAX as u128 + 1);
+    std::mem::forget(r);
+    std::mem::forget(dt);
+}
+
+/// bit k of a little-endian bit-packed byte sequence
+fn vbit(d: &[u8], k: usize) -> bool {
+    (d[k / 8] >> (k % 8)) & 1 == 1
+}
+
+// Contract (C02/C01): for a validity bitmap of NBITS bits sitting at bit offset BOFF of a 4-byte
+// buffer (arbitrary contents; BOFF, NBITS concrete grid point because NullBuffer construction
+// counts bits) and an arbitrary in-range window [offset, offset+len):
+//   contains_nulls(Some(nulls), offset, len) <=> some bit of the window is 0;
+//   count_nulls(Some(nulls), offset, len)     = number of 0 bits in the window;
+//   with None: false / 0. Bits outside the window (and outside the bitmap) are irrelevant.
+// NOT CONFIRMED: did not finish within 600 s on the heavily loaded machine (load ~75); no failure seen.
+fn nulls_window_case<const BOFF: usize, const NBITS: usize>() {
+    let d: [u8; 4] = kani::any();
+    let bb = BooleanBuffer::new(Buffer::from_slice_ref(d), BOFF, NBITS);
+    let nb = NullBuffer::new(bb);
+    let (offset, len): (usize, usize) = (kani::any(), kani::any());
+    kani::assume(offset <= NBITS && len <= NBITS - offset);
+    let mut zeros = 0;
+    let mut i = 0;
+    while i < NBITS {
+        if offset <= i && i < offset + len && !vbit(&d, BOFF + i) {
+            zeros += 1;
+        }
+        i += 1;
+    }
+    assert!(contains_nulls(Some(&nb), offset, len) == (zeros > 0));
+    assert!(count_nulls(Some(&nb), offset, len) == zeros);
+    assert!(!contains_nulls(None, offset, len) && count_nulls(None, offset, len) == 0);
+    kani::cover!(zeros == 0 && len == NBITS);
+    kani::cover!(zeros == len && len > 1);
+    kani::cover!(zeros == 1 && len > 2 && offset > 0);
+    kani::cover!(len == 0);
+    kani::cover!(zeros == 0 && len > 0 && nb.null_count() > 0); // nulls only outside the window
+}
+// @unit name=nulls_window_0_20 props=C02,C01 kind=bounded bound=bitmap_offset0_20_bits fns=contains_nulls,count_nulls tier=thorough mem=4 timeout=900
+#[kani::proof]
+#[kani::unwind(34)]
+fn nulls_window_0_20() {
+    nulls_window_case::<0, 20>()
+}
+// @unit name=nulls_window_3_17 props=C02,C01 kind=bounded bound=bitmap_offset3_17_bits fns=contains_nulls,count_nulls tier=thorough mem=4 timeout=900
+#[kani::proof]
+#[kani::unwind(34)]
+fn nulls_window_3_17() {
+    nulls_window_case::<3, 17>()
+}
